@@ -12,6 +12,7 @@ import shutil
 import subprocess
 import sys
 import tempfile
+import warnings
 from pathlib import Path
 
 from .core import BUILD, REPO, Check, MachineryError, import_repo, parallel_map, require_tlc_ok, run_tlc, tier
@@ -577,39 +578,46 @@ def run_c18() -> int:
 # ------------------------------------------------------------------------------------------------
 # Wiring.tla: what set_design / find_design forward to the search class (used by C20, C13, C17)
 # ------------------------------------------------------------------------------------------------
-def wiring(chk: Check):
+def _wiring_case(c):
+    """Replay one Wiring.tla history on a real manager; the search constructors are captured, no physics runs."""
     from types import SimpleNamespace  # noqa: PLC0415
 
-    cfg = "INIT Init\nNEXT Next\nCHECK_DEADLOCK FALSE\nINVARIANT Forwarded\nINVARIANT DesignHolds\nINVARIANT Emit\n"
-    res = run_tlc("Wiring", cfg, workers=1)
-    chk.add_tlc(res)
-    if res.violated:
-        chk.violation(f"Wiring.tla invariant {res.violated} violated", {})
-        return
-    require_tlc_ok(res, "Wiring")
-    cases = res.prints
-    if len(cases) != 12:
-        raise MachineryError(f"Wiring: {len(cases)} cases")
     import_repo()
     import ghedesigner.design as gd  # noqa: PLC0415
     from ghedesigner.enums import FlowConfigType, TimestepType  # noqa: PLC0415
 
-    rnd = random.Random(1)
-    for c in cases:
-        cfgc = {"method": c["geom"], "perimeter": True, "pipe": "SINGLEUTUBE", "fluid": "WATER", "flow": c["flow"], "maxbh": False, "cont": False}
-        with contextlib.redirect_stdout(io.StringIO()), contextlib.redirect_stderr(io.StringIO()):
-            m = build_manager(cfgc, rnd, loads=profile(3000.0), small=True)
+    bad = []
+    rnd = random.Random(hash((c["geom"], len(c["hist"]))) & 0xFFFF)
+    cfgc = {"method": c["geom"], "perimeter": True, "pipe": "SINGLEUTUBE", "fluid": "WATER", "flow": "BOREHOLE", "maxbh": False, "cont": False}
+    rates = {"BOREHOLE": {1: 0.25, 2: 0.4}, "SYSTEM": {1: 7.5, 2: 11.0}}
+    with contextlib.redirect_stdout(io.StringIO()), contextlib.redirect_stderr(io.StringIO()), warnings.catch_warnings():
+        warnings.simplefilter("ignore")
+        m = build_manager(cfgc, rnd, loads=profile(3000.0), small=True)
+        m._design = None
+        user = None
+        for call in c["hist"]:
+            if call[0] == "set_design":
+                fr = rates[call[1]][call[2]]
+                m.set_design(flow_rate=fr, flow_type_str=call[1].lower())
+                user = {"flow_rate": fr, "flow_type": FlowConfigType.SYSTEM if call[1] == "SYSTEM" else FlowConfigType.BOREHOLE, "borehole": m._borehole,
+                        "pipe_type": m.pipe_type, "fluid": m._fluid, "pipe": m._pipe, "grout": m._grout, "soil": m._soil, "sim_params": m._simulation_parameters,
+                        "loads": m._ground_loads, "geometry": m._geometric_constraints}
+            elif call[0] == "reset":
+                if call[1] == "soil":
+                    m.set_soil(conductivity=2.9, rho_cp=2.2e6, undisturbed_temp=14.0)
+                else:
+                    m.set_borehole(height=88.0, buried_depth=3.5, diameter=0.15)
         d = m._design
-        want_flow = FlowConfigType.SYSTEM if c["flow"] == "SYSTEM" else FlowConfigType.BOREHOLE
-        user = {"flow_rate": d.V_flow, "flow_type": want_flow, "borehole": m._borehole, "pipe_type": m.pipe_type, "fluid": m._fluid, "pipe": m._pipe, "grout": m._grout,
-                "soil": m._soil, "sim_params": m._simulation_parameters, "loads": m._ground_loads, "geometry": m._geometric_constraints}
-        got = {"flow_type": d.flow_type, "borehole": d.borehole, "pipe_type": d.bhe_type, "fluid": d.fluid, "pipe": d.pipe, "grout": d.grout, "soil": d.soil,
+        if user["flow_type"].name != c["flow"] or user["flow_rate"] != rates[c["flow"]][c["rate"]]:
+            return ["machinery: the replay's last set_design differs from the model's Expected"]
+        got = {"flow_rate": d.V_flow, "flow_type": d.flow_type, "borehole": d.borehole, "pipe_type": d.bhe_type, "fluid": d.fluid, "pipe": d.pipe, "grout": d.grout, "soil": d.soil,
                "sim_params": d.sim_params, "loads": d.hourly_extraction_ground_loads, "geometry": d.geometric_constraints}
+        where = f"{c['geom']} after {[tuple(h) for h in c['hist']]}"
         for k, v in got.items():
             if v is not user[k] and v != user[k]:
-                chk.violation(f"set_design for {c['geom']} with flow type {c['flow']}: the design object's {k} is not what the user set ({v!r})", {"case": c, "slot": k})
+                bad.append(f"set_design for {where}: the design object's {k} is not what the user gave in the last set_design call ({v!r})")
         if d.method != TimestepType.HYBRID:
-            chk.violation(f"set_design for {c['geom']}: time-step method {d.method}", {"case": c})
+            bad.append(f"set_design for {where}: time-step method {d.method}")
         # find_design: capture what the search class is constructed with
         captured = {}
         names = ["Bisection1D", "Bisection2D", "BisectionZD", "RowWiseModifiedBisectionSearch"]
@@ -630,18 +638,36 @@ def wiring(chk: Check):
         finally:
             for n in names:
                 setattr(gd, n, real[n])
-        if captured.get("cls") != c["cls"]:
-            chk.violation(f"find_design for {c['geom']} constructs {captured.get('cls')}, model {c['cls']}", {"case": c})
-            continue
-        vals = list(captured["a"]) + list(captured["kw"].values())
-        for k in ("borehole", "pipe_type", "fluid", "pipe", "grout", "soil", "sim_params", "loads"):
-            if not any(v is user[k] for v in vals):
-                chk.violation(f"find_design for {c['geom']}: the search is not given the user's {k}", {"case": c, "slot": k})
-        if captured["kw"].get("flow_type") != want_flow:
-            chk.violation(f"find_design for {c['geom']} with flow type {c['flow']}: the search gets flow_type {captured['kw'].get('flow_type')}", {"case": c})
-        if captured["kw"].get("method") != TimestepType.HYBRID:
-            chk.violation(f"find_design for {c['geom']}: the search gets method {captured['kw'].get('method')}", {"case": c})
-        if not any(isinstance(v, float) and v == d.V_flow for v in vals):
-            chk.violation(f"find_design for {c['geom']}: the search is not given the design flow rate", {"case": c})
+    if captured.get("cls") != c["cls"]:
+        return bad + [f"find_design for {where} constructs {captured.get('cls')}, model {c['cls']}"]
+    vals = list(captured["a"]) + list(captured["kw"].values())
+    for k in ("borehole", "pipe_type", "fluid", "pipe", "grout", "soil", "sim_params", "loads"):
+        if not any(v is user[k] for v in vals):
+            bad.append(f"find_design for {where}: the search is not given the {k} captured by the last set_design")
+    if captured["kw"].get("flow_type") != user["flow_type"]:
+        bad.append(f"find_design for {where}: the search gets flow_type {captured['kw'].get('flow_type')}, the last set_design said {c['flow']}")
+    if captured["kw"].get("method") != TimestepType.HYBRID:
+        bad.append(f"find_design for {where}: the search gets method {captured['kw'].get('method')}")
+    if not any(isinstance(v, float) and v == user["flow_rate"] for v in vals):
+        bad.append(f"find_design for {where}: the search is not given the flow rate of the last set_design")
+    return bad
+
+
+def wiring(chk: Check):
+    cfg = "INIT Init\nNEXT Next\nCHECK_DEADLOCK FALSE\nINVARIANT Forwarded\nINVARIANT DesignHolds\nINVARIANT Emit\n"
+    res = run_tlc("Wiring", cfg, workers=1)
+    chk.add_tlc(res)
+    if res.violated:
+        chk.violation(f"Wiring.tla invariant {res.violated} violated", {})
+        return
+    require_tlc_ok(res, "Wiring")
+    cases = res.prints
+    if len(cases) != 2088:
+        raise MachineryError(f"Wiring: {len(cases)} cases")
+    for c, bad in zip(cases, parallel_map(_wiring_case, cases, chunksize=8)):
+        for b in bad[:2]:
+            if b.startswith("machinery"):
+                raise MachineryError(b)
+            chk.violation(f"C20/C13 wiring: {b}", {"case": c})
     chk.traces += len(cases)
     chk.note("wiring_cases_replayed", len(cases))
